@@ -526,8 +526,6 @@ pub uninterp spec fn rc_count<T: ?Sized, A: std::alloc::Allocator>(r: &Rc<T, A>)
 pub assume_specification<T: ?Sized, A: std::alloc::Allocator>[ Rc::<T, A>::strong_count ](this: &Rc<T, A>) -> (r: usize)
     ensures r == rc_count(this);
 
-#[verifier::external_body]
-pub fn vx_forbidden() requires false { }
 
 /// the shared observer as seen through the handle's Rc: only what Observer::drop does with it
 pub struct SharedObserver { pub state: Cell<ObserverState>, pub _opaque: OnUpdateHandler }
@@ -561,7 +559,7 @@ impl Observer {
 //@ name: disallow_future_use
 //@ as: fn disallow_future_use(&self)
 //@ panics: diverge
-//@ rule R8: `self.internal.disallow_future_use(&state);` => `vx_diverge();` x1
+//@ rule R8 re: `self\s*\.\s*internal\s*\.\s*disallow_future_use\([^()]*\)` => `vx_diverge()` x1
 //@ props: C05 C07 C09 C10 C13
 //@ contract:
 //@|     requires shared_state_alive(&*self.internal),
@@ -573,8 +571,8 @@ impl Observer {
 //@ impl: impl<T: Value> Drop for Observer<T>
 //@ name: drop
 //@ as: fn drop__other_clones_alive(&mut self)
-//@ rule R8: `self.internal.disallow_future_use(&state);` => `vx_forbidden();` x*
-//@ rule R8 re: `self\.internal\s*\.state\s*\.set\(ObserverState::Disallowed\);` => `vx_forbidden();` x*
+//@ rule R8 re: `self\s*\.\s*internal\s*\.\s*disallow_future_use\([^()]*\)` => `vx_forbidden()` x*
+//@ rule R8 re: `self\s*\.\s*internal\s*\.\s*state\s*\.\s*set\(\s*ObserverState::Disallowed\s*\)` => `vx_forbidden()` x*
 //@ props: C05 C07 C10 C13
 //@ contract:
 //@|     requires rc_count(&old(self).sentinel) >= 2,       // another clone of this observer handle is alive
@@ -588,8 +586,8 @@ impl Observer {
 //@ name: drop
 //@ as: fn drop__last_clone_state_alive(&mut self)
 //@ panics: diverge
-//@ rule R8: `self.internal.disallow_future_use(&state);` => `vx_diverge();` x*
-//@ rule R8 re: `self\.internal\s*\.state\s*\.set\(ObserverState::Disallowed\);` => `vx_forbidden();` x*
+//@ rule R8 re: `self\s*\.\s*internal\s*\.\s*disallow_future_use\([^()]*\)` => `vx_diverge()` x*
+//@ rule R8 re: `self\s*\.\s*internal\s*\.\s*state\s*\.\s*set\(\s*ObserverState::Disallowed\s*\)` => `vx_forbidden()` x*
 //@ props: C05 C07 C10 C13
 //@ contract:
 //@|     requires rc_count(&old(self).sentinel) <= 1, shared_state_alive(&*old(self).internal),
@@ -602,8 +600,8 @@ impl Observer {
 //@ name: drop
 //@ as: fn drop__last_clone_state_gone(&mut self)
 //@ panics: diverge
-//@ rule R8: `self.internal.disallow_future_use(&state);` => `vx_forbidden();` x*
-//@ rule R8 re: `self\.internal\s*\.state\s*\.set\(ObserverState::Disallowed\);` => `vx_diverge();` x*
+//@ rule R8 re: `self\s*\.\s*internal\s*\.\s*disallow_future_use\([^()]*\)` => `vx_forbidden()` x*
+//@ rule R8 re: `self\s*\.\s*internal\s*\.\s*state\s*\.\s*set\(\s*ObserverState::Disallowed\s*\)` => `vx_diverge()` x*
 //@ props: C05 C07 C10 C13
 //@ contract:
 //@|     requires rc_count(&old(self).sentinel) <= 1, !shared_state_alive(&*old(self).internal),
